@@ -38,7 +38,14 @@ pub struct ExIoError(std::io::Error);
 
 pub assume_specification[ std::io::stderr ]() -> std::io::Stderr;
 
-pub assume_specification[ std::io::Stderr::lock ](s: &std::io::Stderr) -> std::io::StderrLock<'static>;
+/// What has gone through a stderr writer so far: the number of JSON documents and of newlines written through it
+/// (uninterpreted functions of the writer VALUE; every `&mut` use yields a new value constrained by the shim's
+/// `ensures`). This makes output an EVENT, not only a predicate: C11 "stderr is ONE JSON object".
+pub uninterp spec fn stderr_docs(w: std::io::StderrLock<'static>) -> nat;
+pub uninterp spec fn stderr_newlines(w: std::io::StderrLock<'static>) -> nat;
+
+pub assume_specification[ std::io::Stderr::lock ](s: &std::io::Stderr) -> (r: std::io::StderrLock<'static>)
+    ensures stderr_docs(r) == 0 && stderr_newlines(r) == 0;
 
 /// E1: `?` on a `std::io::Error` in a function returning `anyhow::Result`
 impl From<std::io::Error> for anyhow::Error {
@@ -50,7 +57,11 @@ impl From<std::io::Error> for anyhow::Error {
 /// decides); body = the identical macro call.
 #[verifier::external_body]
 pub fn verif_writeln(w: &mut std::io::StderrLock<'static>) -> (r: Result<(), std::io::Error>)
-    ensures r is Ok <==> stderr_newline_ok(),
+    requires
+        stderr_docs(*old(w)) == 1 && stderr_newlines(*old(w)) == 0, // [V8.call.newline_once_after_the_report]
+    ensures
+        r is Ok <==> stderr_newline_ok(),
+        stderr_docs(*final(w)) == stderr_docs(*old(w)) && stderr_newlines(*final(w)) == stderr_newlines(*old(w)) + 1,
 {
     use std::io::Write;
     writeln!(w)
@@ -488,6 +499,9 @@ verif_map_extend(&mut $m, verif_path_text(&$p), $v)
 #[verifier::loop_isolation(false)]
 //@unit id=V8 file=src/main.rs fn=process_violations ret=r
 //@contract
+    requires
+        // from its only call site (V8g): C11 "with no diagnostics nothing is printed"
+        violations@.len() > 0, // [V8.pre.called_only_with_diagnostics]
     ensures
         // exit status 0 through this function means no error-severity diagnostic
         r is Ok ==> !exists_error(vmap(violations@)), // [V8.post.ok_implies_no_error]
@@ -545,6 +559,8 @@ verif_map_extend(&mut $m, verif_path_text(&$p), $v)
 //@edit rule=ghost before=<<process::exit(1)>>
         // the only call of `exit(1)`: reachable only if an error-severity violation exists
         assert(exists_error(viol)); // [V8.post.exit1_only_if_error]
+//@edit rule=E2 find=<<process::exit(1)>> count=all
+process::exit_reported(1, &stderr)
 //@end
 
 // V8g: the end of `main` (main.rs:67-71): run the validators, and report only a non-empty result.
@@ -575,6 +591,10 @@ fn main_run_and_report(context: ValidationContext, sync_validators: Vec<Box<dyn 
         // the report of what `run` returned; in particular never because every diagnostic is a warning / info / hint,
         // and never because of the name of a file
         r is Err ==> (validators::run_result(Arc::new(context), sync_validators, async_validators) matches Some(v) ==> stderr_report_fails(v)), // [V8g.post.err_only_if_run_failed_or_stderr_write_fails]
+        // C11 "whenever there are diagnostics, stderr is one JSON object ...": an `Ok` run with a non-empty result has
+        // written its report (warnings are printed although they do not fail the run)
+        r is Ok && validators::run_result(Arc::new(context), sync_validators, async_validators) is Some && validators::run_result(Arc::new(context), sync_validators, async_validators).unwrap().len() > 0 // [V8g.post.ok_with_diagnostics_means_report_written]
+            ==> stderr_report_written(validators::run_result(Arc::new(context), sync_validators, async_validators).unwrap()),
 //@tail
     Ok(())
 //@edit rule=ghost before=<<let violations = validators::run(>>
